@@ -253,6 +253,8 @@ def finding_sig(c, got):
             for a, b in pairs:
                 if a[0] == "t" and b[0] in "su":
                     return "compare:non-number-left-of-boxed-int:raises"
+    if got == "X":
+        return "operand-construction:int/s64-or-u64-of-in-range-decimal-string:raises"
     # F3: brushift on a negative int/s64 keeps the sign (it is dispatched to the :>> method)
     if op == "brushift" and args and args[0][0] == "s" and args[0][1] < 0 and got.startswith("s-"):
         return "brushift:s64-negative:sign-preserved"
@@ -305,6 +307,8 @@ class Runner:
         for c, it, (status, text) in zip(cases, items, res):
             if status == "OK":
                 got = M.normalise_observed(text)
+                if got.startswith("X "):
+                    got = "X"
                 if c.op == "compare" and got in CMP_BITS:
                     got = CMP_BITS[got]     # -1 / 0 / 1 as numbers; the sign of a zero is not specified
             elif status == "ERR":
@@ -337,7 +341,7 @@ class Runner:
                     self.groups[gkey] = sig
             what = "%s route=%s args=%s%s: expected %s, observed %s%s" % (
                 c.op, c.route, " ".join(lit(a) for a in c.args), (" imm=%d" % c.imm) if c.imm is not None else "",
-                " or ".join(sorted(c.exp)), got, (" (%s)" % text[:200]) if status != "OK" or got == "E" else "")
+                " or ".join(sorted(c.exp)), got, (" (%s)" % text[:200]) if status != "OK" or got in ("E", "X") else "")
             chk.violation(sig=sig, what=what, replay_text=replay_src(c.route, c.op, c.args, c.imm, c.exp, got),
                           replay_cmd="janet <this file>")
         chk.add(evaluations=len(cases), transitions=len(cases), states=len(cases))
@@ -429,7 +433,7 @@ def part_int_binary(chk, run, name, boxed, others, skip_pairs=None):
     return set((vkey(a), vkey(b)) for a, b in pairs) | (skip_pairs or set())
 
 
-def part_int_shift(chk, run, SV, UV):
+def part_int_shift(chk, run, SV, UV, name="int-shift"):
     boxed = SV + UV
     counts = [N(k) for k in range(64)]
     ncounts = set(counts)
@@ -437,7 +441,7 @@ def part_int_shift(chk, run, SV, UV):
         counts += [S(k), U(k), T(str(k))]
     bad = [N(0.5), N(-0.0), N(math.nan), N(-1.0), N(64.0), T("abc"), T(""), N(2.0 ** 53 + 2), S(-1), U(M.U64_MAX),
            N(math.inf), T("64"), T("-1")]
-    pt = run.part("int-shift")
+    pt = run.part(name)
     for op in SHIFTS:
         for x in boxed:
             for n in counts + bad:
@@ -751,7 +755,7 @@ def main():
                "from decimal strings by int/s64 / int/u64 (that conversion is itself checked in part 'convert')")
     chk.assume("vjanet `fast` = gcc -O2 build of /repo's working tree (x86-64, no FMA contraction)")
 
-    KS_Q = [8, 16, 31, 32, 33, 52, 53, 54, 62, 63]
+    KS_Q = [8, 16, 24, 31, 32, 33, 48, 52, 53, 54, 62, 63]
     PATS_Q = PATTERNS + splitmix(4)
     NKS_Q = [31, 32, 52, 53, 54, 63, 64]
     if thorough:
@@ -760,7 +764,7 @@ def main():
         ks_prim = [1, 8, 16, 31, 32, 33, 52, 53, 54, 55, 62, 63, 64]
         imm_ks = list(range(-128, 128))
     else:
-        ks_cmp = [0, 1, 2, 8, 16, 24, 31, 32, 33, 48, 52, 53, 54, 55, 62, 63, 64]
+        ks_cmp = list(range(0, 65, 2)) + [1, 31, 33, 53, 55, 63]
         ks_chain = [31, 53, 63, 64]
         ks_prim = [31, 32, 53, 63, 64]
         imm_ks = [-128, -127, -8, -7, -3, -2, -1, 0, 1, 2, 3, 7, 8, 63, 64, 126, 127]
@@ -817,7 +821,7 @@ def main():
             bound = "bound 2: |s64|=%d |u64|=%d |number|=%d |string|=%d, every power of two 2^1..2^63 +-1" % (
                 len(SV2), len(UV2), len(NV2), len(TV2))
         stage("int-shift-2", lambda: part_int_shift(chk, run, [v for v in SV2 if v not in set(SV)],
-                                                    [v for v in UV2 if v not in set(UV)]), frac=0.8)
+                                                    [v for v in UV2 if v not in set(UV)], name="int-shift-2"), frac=0.8)
     chk.cov["bound_completed"] = "parts %s; int-binary %s" % (",".join(done), bound)
     chk.finish()
 
